@@ -52,11 +52,15 @@ func (s *StorageClient) Set(key string, item *mc.Item, noreply bool) (bool, erro
 	ki := s.prepare(key, false)
 	payload := &store.Payload{}
 	payload.Flag = uint32(item.Flag)
-	payload.CArray = item.CArray
 	payload.Ver = int32(item.Exptime)
 	payload.TS = uint32(item.ReceiveTime.Unix())
+	if payload.Ver >= 0 {
+		// the store takes over the value buffer
+		payload.CArray = item.CArray
+		tofree = nil
+	}
+	// else: a negative revision is a delete; it carries no value, the buffer is released here
 
-	tofree = nil
 	err := s.hstore.Set(ki, payload)
 	if err != nil {
 		logger.Errorf("err to get %s: %s", key, err.Error())
